@@ -63,7 +63,8 @@ def run(c):
     if len(gates) != 1:
         c.lost("nrd-single-gate", "R2", AK, "apply_kernel_rules has a single is_nrd_enabled gate", "%d found" % len(gates))
     c.loop("kernel-rules-each", X + "Extension::apply_kernels", X + "apply_kernel_rules", over=r"arg1")
-    c.loop("kernel-apply-each", X + "Extension::apply_kernels", X + "Extension::apply_kernel", over=r"arg1")
+    c.loop("kernel-apply-each", X + "Extension::apply_kernels", "re:txhashset::apply_kernel_rules$", over=r"arg1", via=2,
+           desc="Extension::apply_kernels: every kernel of the block goes through apply_kernel_rules (NRD relative-height rule)")
     c.r1("apply-block-kernels", X + "Extension::apply_block", X + "Extension::apply_kernels", via=2)
     c.r2_arg("apply-kernels-height", X + "Extension::apply_block", X + "Extension::apply_kernels", 2, must=["arg1.header.height"])
     c.r1("nrd-rewind", X + "Extension::rewind_single_block", "re:linked_list::.*::rewind$|RewindableListIndex::rewind$", sink="ok", via=2,
